@@ -546,7 +546,11 @@ Record obs := mkObs {
                                        (* HeaderReader, BodyReader, TrailerReader, Reader contents *)
   ob_reparse : option (option msg);    (* full snapshots only: http.Read*(Reader()) *)
   ob_records : nat;                    (* records this exchange left in the log *)
-  ob_err : bool                        (* the logger returned an error / panicked *)
+  ob_err : bool;                       (* the logger returned an error / panicked *)
+  ob_startline : option (bytes * bytes)
+     (* first line of the snapshot / logged text, and the reference: the first
+        line Write() sends for the unlogged twin (responses) or the request
+        line as received (requests: Write always says HTTP/1.1, origin-form) *)
 }.
 
 (* [s] ends with [suf] *)
@@ -574,8 +578,19 @@ Definition forwarded_ok (m : msg) (o : obs) : bool :=
 Definition skip_ok (skip : bool) (o : obs) : bool :=
   if skip then Nat.eqb (ob_records o) 0 else true.
 
+Definition startline_ok (o : obs) : bool :=
+  match ob_startline o with
+  | None => true
+  | Some (snap, ref) => bytes_eqb snap ref
+  end.
+
 Definition c15_ok (skip : bool) (m : msg) (o : obs) : bool :=
-  forwarded_ok m o && sections_ok o && reparse_ok m o && skip_ok skip o && negb (ob_err o).
+  forwarded_ok m o && sections_ok o && reparse_ok m o && skip_ok skip o && negb (ob_err o)
+  && startline_ok o.
+
+(* first line of a snapshot *)
+Definition first_line (s : bytes) : option bytes :=
+  match split_crlf s with Some (l, _) => Some l | None => None end.
 
 (* what the model predicts for the observable parts of a case *)
 Definition model_sections (lg : logger) (m : msg) : option (bytes * bytes * bytes * bytes) :=
